@@ -707,12 +707,11 @@ class RequestHandler:
                 raise http.cookies.CookieError(
                     f"Invalid cookie attribute {attr_name}={attr_value!r} for cookie {name!r}"
                 )
-        if not hasattr(self, "_new_cookie"):
-            self._new_cookie: http.cookies.SimpleCookie = http.cookies.SimpleCookie()
-        if name in self._new_cookie:
-            del self._new_cookie[name]
-        self._new_cookie[name] = value
-        morsel = self._new_cookie[name]
+        # Build the cookie on the side: a call that raises must neither leave a
+        # partial cookie behind nor discard an earlier setting of the same name.
+        cookie: http.cookies.SimpleCookie = http.cookies.SimpleCookie()
+        cookie[name] = value
+        morsel = cookie[name]
         if domain:
             morsel["domain"] = domain
         if expires_days is not None and not expires:
@@ -748,13 +747,14 @@ class RequestHandler:
         # Serialize the cookie now: anything that cannot be sent as a header must raise
         # here, where the application can handle it, and not in flush() after the
         # response has been started.
-        try:
-            httputil.HTTPHeaders().add(
-                "Set-Cookie", self._convert_header_value(morsel.OutputString(None))
-            )
-        except (ValueError, httputil.HTTPInputError):
+        httputil.HTTPHeaders().add(
+            "Set-Cookie", self._convert_header_value(morsel.OutputString(None))
+        )
+        if not hasattr(self, "_new_cookie"):
+            self._new_cookie: http.cookies.SimpleCookie = http.cookies.SimpleCookie()
+        if name in self._new_cookie:
             del self._new_cookie[name]
-            raise
+        self._new_cookie[name] = morsel
 
     def clear_cookie(self, name: str, **kwargs: Any) -> None:
         """Deletes the cookie with the given name.
